@@ -27,7 +27,7 @@ func c19Scenario(c *choice.Ctx, rep *report.R, depth int) {
 	fail := func(sig, msg string) {
 		if c19AsC07 {
 			// as a part of C07: only what C07 states (a hit is the entry stored for that question and client group)
-			if sig != "wrong-entry" && sig != "bad-hit" && sig != "ownership" {
+			if sig != "wrong-entry" && sig != "bad-hit" && sig != "ownership" && sig != "router-start" {
 				return
 			}
 			rep.Violate("C07:with-refresh:"+sig, msg+"\n  events: "+strings.Join(trace, " "), map[string]any{"Choices": c.Choices()})
